@@ -66,6 +66,27 @@ TABLE = {
          'Language range semantics and type tables are transcriptions (trusted); no foreign interpreter available.', '7 C07'),
 }
 NA = {}
+# what later rounds added to each check (appended to the level text)
+ADD = {
+ 'C01': ' Also: which rows decide the stored element type (TypeRows; TLC must find the per-slice typing of the pinned tree chunklen-dependent), chunklen as NumPy integers (refusal or the int behaviour, never a wrong array).',
+ 'C02': ' Random histories recorded from the real code (incl. the repository tests in the thorough tier) are validated by TLC against spec/TraceArray.tla; the same TLC paths are replayed in a child interpreter with an ASCII default encoding.',
+ 'C03': ' Also inside open_array() contexts / with suspended generators (cx in Array.tla), integer arguments in NumPy forms with alternative explanations, code->spec validation by TLC of random histories (with contexts) and of the repository tests (TraceArray.tla).',
+ 'C04': ' Code->spec validation of random ragged histories by TLC (TraceRagged.tla); thorough: also inside open_arrays() contexts (uctx in Ragged.tla).',
+ 'C05': ' Also the overflow family (index type bound = model bound) and operations inside open_arrays() contexts / suspended iter_arrays generators (uctx); TLC-validated random histories; ASCII-locale child replay.',
+ 'C06': ' Content is also reached through histories on one handle with code generated in between; relative-path arrays across chdir for abspath; squeeze()/matrix() result dimensions of the Scilab complex code.',
+ 'C07': ' Also: arithmetic in the integer class of the index file (ClassAdd: Matlab saturates, Scilab wraps) with value counts at the maximum of narrow index types; content reached through histories with code generated in between.',
+ 'C08': ' TLC-validated random histories; thorough: repository tests as traces and the ragged README inside user contexts (stale listing modelled, outside the property).',
+ 'C09': ' The raise fault rotates Exception / KeyboardInterrupt / BaseException classes; TLC-validated random histories with faults; ASCII-locale child replay.',
+ 'C10': ' The raise fault rotates Exception / KeyboardInterrupt / BaseException classes; ASCII-locale child replay (default text encoding); TLC-validated random histories.',
+ 'C11': ' Also inside open_array() contexts, where the spec says what the open map allows (WriteThroughOpenMap is modelled; ReadOnlyAlways must be violated in the model).',
+ 'C12': ' Several live handles on one directory: every state of spec/Shared.tla (also inconsistent ones) is materialised and a stratified sample of its edges executed; TLC checks Safe/ViewIsPrefix/ReadsCurrent and that the named deviations are real.',
+ 'C13': ' Multi-key updates (updateall), rotating unserialisable kinds (incl. undecodable bytes), the same edges on RaggedArrays, creation-time table (spec/MetaCreate.tla), TLC-validated random histories and the repository metadata tests as traces.',
+ 'C14': ' Chunk parameters also as NumPy integers of several widths (refusal or the int behaviour).',
+ 'C16': ' Call form staleobject: a handle whose directory was deleted and re-created as something else.',
+ 'C17': ' open() audit events tell in-place rewrites from truncating ones (overlay torn variants); metadata value pairs of equal text length; multi-key updates; crash states opened r and r+.',
+ 'C18': ' Paths also spelled through a symbolic link and .. with a valid decoy at the lexically simplified place.',
+ 'C20': ' Round trips go through read_txt/read_jsondict, with carriage returns, and are repeated in a child interpreter with an ASCII default encoding; the worker has created and deleted arrays before.',
+}
 def main():
     props = [json.loads(l)['id'] for l in open(os.path.join(HERE, 'properties.jsonl'))]
     checks = []
@@ -73,6 +94,7 @@ def main():
     for p in props:
         if p in TABLE:
             lvl, tech, text, note, ref = TABLE[p]
+            text = text + ADD.get(p, '')
             checks.append({'property_id': p, 'quick_cmd': './check %s --tier quick' % p,
                            'thorough_cmd': './check %s --tier thorough' % p,
                            'evidence_file': 'evidence/%s.json' % p,
